@@ -129,6 +129,10 @@ def check_gauss(rep, pdb, key):
             pivcalls = [n for n in walk(gw["body"]) if n.get("k") == "MethodCall" and callee_path(n) == "%s::partial_pivot" % M]
             piv_ok = len(pivcalls) == 1 and [ctx.term(a) for a in call_args(pivcalls[0])] == [P(0), P(1), k] and \
                 [a for a in ancestors(pivcalls[0]) if a.get("k") == "For"] == [mu.loops[0]]
+            if not pivcalls and pdb.fn("%s::partial_pivot" % M) is None:
+                # the pivot step written out in the k loop: search (k, k) then both exchanges, before the row loop
+                inl = [n for n in walk(gw["body"]) if n.get("k") == "MethodCall" and callee_path(n) in ("%s::max_abs_in_column" % M, "%s::swap_rows" % M, "vector::Vector<T>::swap")]
+                piv_ok = len(inl) == 3 and all([a for a in ancestors(n) if a.get("k") in ("For", "If", "While")] == [mu.loops[0]] and _pos(n) < _pos(mu.loops[1]) for n in inl)
             i = for_range(ctx, mu.loops[1])[0]
             j = for_range(ctx, mu.loops[2])[0] if len(mu.loops) > 2 else None
             mv, xv = mu.value, xu.value
@@ -156,25 +160,38 @@ def run(rep, pdb, tier):
     mac = fn_or_missing(rep, pdb, "%s::max_abs_in_column" % M, "anchor/max_abs_in_column")
     if mac is not None:
         check_argmax(rep, pdb, mac, "max_abs_in_column", P(2), ROWS, 1, lambda c: P(1))
-    pp = fn_or_missing(rep, pdb, "%s::partial_pivot" % M, "anchor/partial_pivot")
-    if pp is not None:
-        ctx = Ctx.for_fn(pdb, pp)
-        calls = {callee_path(n): n for n in walk(pp["body"]) if n.get("k") == "MethodCall"}
-        srch = calls.get("%s::max_abs_in_column" % M)
-        sw = calls.get("%s::swap_rows" % M)
-        xs = calls.get("vector::Vector<T>::swap")
-        ok_s = srch is not None and [ctx.term(a) for a in call_args(srch)] == [P(0), P(2), P(2)]
-        rep.add("search-range/partial_pivot", "the column searched and the first row searched are both the elimination index k", ok_s, srch or pp["body"],
-                "max_abs_in_column args=%s" % ([show(ctx.term(a), ctx) for a in call_args(srch)] if srch else None))
-        ok_x = sw is not None and xs is not None
+    # the pivot step: in partial_pivot(x, k), or written out in the elimination loop of gauss_with_pivot
+    pp = pdb.fn("%s::partial_pivot" % M)
+    host, kterm = (pp, P(2)) if pp is not None else (pdb.fn("%s::gauss_with_pivot" % M), None)
+    if host is None:
+        rep.missing("anchor/partial_pivot", "the pivot step (partial_pivot, or inline in gauss_with_pivot) exists", "neither function found")
+    else:
+        ctx = Ctx.for_fn(pdb, host)
+        calls = {}
+        for n in walk(host["body"]):
+            if n.get("k") == "MethodCall":
+                calls.setdefault(callee_path(n), []).append(n)
+        one = lambda p_: calls.get(p_)[0] if len(calls.get(p_, [])) == 1 else None
+        srch, sw, xs = one("%s::max_abs_in_column" % M), one("%s::swap_rows" % M), one("vector::Vector<T>::swap")
+        if kterm is None and srch is not None:
+            lps = [a_ for a_ in ancestors(srch) if a_.get("k") == "For"]
+            r_ = for_range(ctx, lps[-1]) if lps else None
+            kterm = r_[0] if r_ else None
+        where_ = "partial_pivot" if pp is not None else "gauss_with_pivot"
+        ok_s = srch is not None and kterm is not None and [ctx.term(a) for a in call_args(srch)] == [P(0), kterm, kterm]
+        rep.add("search-range/partial_pivot", "the column searched and the first row searched are both the elimination index k", ok_s, srch or host["body"],
+                "in %s: max_abs_in_column args=%s" % (where_, [show(ctx.term(a), ctx) for a in call_args(srch)] if srch else None))
+        ok_x = sw is not None and xs is not None and srch is not None
         det = ""
         if ok_x:
             a = [ctx.term(x) for x in call_args(sw)]
             b = [ctx.term(x) for x in call_args(xs)]
-            piv = ctx.term(srch) if srch is not None else None
-            ok_x = a[0] == P(0) and b[0] == P(1) and set(a[1:]) == set(b[1:]) == {piv, P(2)}
-            det = "swap_rows(%s) x.swap(%s)" % (", ".join(show(t, ctx) for t in a[1:]), ", ".join(show(t, ctx) for t in b[1:]))
-        rep.add("exchange-pair/partial_pivot", "the matrix row exchange and the right-hand-side exchange use the same index pair {pivot, k}", ok_x, sw or pp["body"], det)
+            piv = ctx.term(srch)
+            same_ctx = [x for x in ancestors(sw) if x.get("k") in ("For", "If", "While")] == [x for x in ancestors(xs) if x.get("k") in ("For", "If", "While")] == \
+                [x for x in ancestors(srch) if x.get("k") in ("For", "If", "While")]
+            ok_x = a[0] == P(0) and b[0] == P(1) and set(a[1:]) == set(b[1:]) == {piv, kterm} and same_ctx and _pos(srch) < min(_pos(sw), _pos(xs))
+            det = "in %s: swap_rows(%s) x.swap(%s)" % (where_, ", ".join(show(t, ctx) for t in a[1:]), ", ".join(show(t, ctx) for t in b[1:]))
+        rep.add("exchange-pair/partial_pivot", "the matrix row exchange and the right-hand-side exchange use the same index pair {pivot, k}, in the same context, after the search", ok_x, sw or host["body"], det)
     check_gauss(rep, pdb, "row-op-pair/gauss_with_pivot")
     bs = fn_or_missing(rep, pdb, "%s::backsolve" % M, "anchor/backsolve")
     if bs is not None:
